@@ -33,34 +33,26 @@ func init() {
 		Run: ruleRel3})
 }
 
-// truth-test classes: partition of {T,F,U} by the test
-var relExpected = map[string][]string{
-	// decisions on rows / control flow: TRUE only
-	"lib/query.(*View).filter$1":    {"T|FU"},
-	"lib/query.InnerJoin$2":         {"T|FU"},
-	"lib/query.OuterJoin$2":         {"T|FU"},
-	"lib/query.(*Processor).IfStmt": {"T|FU"},
-	"lib/query.(*Processor).Case":   {"T|FU"},
-	"lib/query.(*Processor).While":  {"T|FU"},
-	"lib/query.evalCaseExpr":        {"T|FU"},
-	"lib/query.If":                  {"T|FU"}, // built-in IF(cond, a, b)
-	"lib/query.Nullif":              {"T|FU"}, // NULLIF(a, b): NULL iff a = b is TRUE
-	"lib/query.matchText":           {"T|FU"},
-	"lib/query.Max":                 {"T|FU"}, // replace the running maximum iff Greater is TRUE
-	"lib/query.Min":                 {"T|FU"},
-	// Kleene short-circuits and documented expansions
-	"lib/query.evalLogic":      {"F|TU", "T|FU"}, // AND stops on FALSE, OR on TRUE
-	"lib/query.evalBetween":    {"F|TU", "F|TU"}, // low bound FALSE ⇒ FALSE (single value and row value form)
-	"lib/query.InRowValueList": {"F|TU", "T|FU"}, // ALL stops on FALSE, ANY on TRUE
-	// renderings of a ternary value, not decisions
-	"lib/query.ConvertFieldContents": {"U|TF"},
-	"lib/query.serializeTernary":     {"F|TU", "T|FU"},
-	"lib/query.ShowObjects":          {"F|TU", "T|FU", "U|TF"},
-	// sort comparator: UNKNOWN = tie (decided by R-SRT-2)
-	"lib/query.(SortValues).Less": {"U|TF"},
-	// controls
-	"lib/zzverifpositive.okKeepIfTrue":       {"T|FU"},
-	"lib/zzverifpositive.CtlKeepUnlessFalse": {"T|FU"},
+// Truth tests are classified by the partition of {T,F,U} they make. A test
+// that singles out TRUE (T|FU) is the documented rule ("acts on TRUE only") and
+// is accepted wherever it occurs, so extracting or merging helpers does not
+// alarm. Tests that single out FALSE or UNKNOWN are accepted only in the
+// functions listed here, with the reason; and the functions that decide about
+// rows / control flow must contain their TRUE test.
+var relOtherTests = map[string][]string{
+	"lib/query.evalLogic":            {"F|TU"},                 // AND stops on FALSE (OR on TRUE)
+	"lib/query.evalBetween":          {"F|TU", "F|TU"},         // low bound FALSE ⇒ FALSE (single value and row value form)
+	"lib/query.InRowValueList":       {"F|TU"},                 // ALL stops on FALSE (ANY on TRUE)
+	"lib/query.ConvertFieldContents": {"U|TF"},                 // rendering of a ternary cell
+	"lib/query.serializeTernary":     {"F|TU"},                 // rendering of a ternary key
+	"lib/query.ShowObjects":          {"F|TU", "U|TF"},         // rendering of flags
+	"lib/query.(SortValues).Less":    {"U|TF"},                 // UNKNOWN = tie (decided by R-SRT-2)
+}
+
+// functions that decide on rows / control flow: each must test for TRUE
+var relMustTestTrue = []string{
+	"lib/query.(*View).filter$1", "lib/query.InnerJoin$2", "lib/query.OuterJoin$2",
+	"lib/query.(*Processor).IfStmt", "lib/query.(*Processor).Case", "lib/query.(*Processor).While", "lib/query.evalCaseExpr",
 }
 
 func ternaryConstName(c *Ctx, v ssa.Value) (string, bool) {
@@ -113,25 +105,40 @@ func ruleRel1(c *Ctx) {
 	}
 	sort.Strings(names)
 	for _, n := range names {
-		got := append([]string(nil), found[n]...)
-		sort.Strings(got)
-		want, listed := relExpected[n]
+		var other []string
+		nTrue := 0
+		for _, cl := range found[n] {
+			if cl == "T|FU" {
+				nTrue++
+			} else {
+				other = append(other, cl)
+			}
+		}
+		sort.Strings(other)
 		key := n + ": ternary truth tests"
-		if !listed {
-			c.Bad(key, pos[n], fmt.Sprintf("unclassified ternary test(s) %v in a function that is not in the frozen table: decide whether it acts on TRUE only (row is kept iff its condition is TRUE) and list it", got))
+		allowed := append([]string(nil), relOtherTests[n]...)
+		sort.Strings(allowed)
+		if strings.Join(other, ",") == strings.Join(allowed, ",") {
+			c.Ok(key, pos[n], fmt.Sprintf("%d test(s) act on TRUE only%s", nTrue, map[bool]string{true: "; listed short-circuit / rendering tests: " + strings.Join(other, ", "), false: ""}[len(other) > 0]))
 			continue
 		}
-		w := append([]string(nil), want...)
-		sort.Strings(w)
-		c.Check(strings.Join(got, ",") == strings.Join(w, ","), key, pos[n], "separates "+strings.Join(got, ", "),
-			fmt.Sprintf("the test separates %v, documented %v: e.g. `!= FALSE` keeps rows whose condition is UNKNOWN (NULL comparisons) although only TRUE may keep a row", got, w))
+		c.Bad(key, pos[n], fmt.Sprintf("the function contains ternary test(s) %v that single out FALSE or UNKNOWN (listed for it: %v): e.g. `!= FALSE` acts on rows whose condition is UNKNOWN (NULL comparisons) although only TRUE may keep a row / take a branch; if the test is a documented short-circuit or a rendering, list it with its reason", other, allowed))
 	}
-	for n := range relExpected {
-		if strings.Contains(n, "zzverifpositive") {
-			continue
+	for _, n := range relMustTestTrue {
+		hasTrue := false
+		for _, cl := range found[n] {
+			if cl == "T|FU" {
+				hasTrue = true
+			}
 		}
-		if _, ok := found[n]; !ok {
-			c.Unknown(n+": ternary truth tests", "-", "cannot-analyse: the listed function no longer contains a ternary test (renamed or restructured?) — re-confirm the table")
+		if !hasTrue {
+			if _, present := found[n]; !present && c.P.Func(n) == nil {
+				c.Unknown(n+": acts on TRUE", "-", "cannot-analyse: the deciding function "+n+" does not exist any more (renamed or restructured?) — re-confirm where the row / branch decision is taken")
+				continue
+			}
+			c.Bad(n+": acts on TRUE", "-", "the deciding function no longer tests its condition for TRUE")
+		} else {
+			c.Ok(n+": acts on TRUE", pos[n], "keeps the row / takes the branch iff the condition is TRUE")
 		}
 	}
 }
